@@ -111,7 +111,7 @@ func (fr *Frame) ident(st *State, n *ast.Ident) Val {
 	obj := fr.info.ObjectOf(n)
 	switch o := obj.(type) {
 	case *types.Var:
-		if v, ok := st.vars[o]; ok {
+		if v, ok := x.getVar(st, o); ok {
 			return v
 		}
 		if o.Parent() == o.Pkg().Scope() {
@@ -119,7 +119,7 @@ func (fr *Frame) ident(st *State, n *ast.Ident) Val {
 		}
 		// variable not yet bound (e.g. captured or declared without init)
 		v := x.havocVal(o.Name(), o.Type())
-		st.vars[o] = v
+		x.declVar(st, o, v)
 		return v
 	case *types.Const:
 		return x.constVal(o.Val(), o.Type())
@@ -228,19 +228,24 @@ func (fr *Frame) addrOf(st *State, n *ast.UnaryExpr) Val {
 	case *ast.CompositeLit:
 		return fr.composite(st, inner, true)
 	case *ast.Ident:
-		// pointer to a local: allocate a cell holding its current value (escape by copy).
-		v := fr.expr(st, inner)
-		r := x.alloc(st, "cell")
-		p := Val{T: r, S: "Int", Ty: t}
-		if _, ok := v.Ty.Underlying().(*types.Struct); ok && v.S != "Time" {
-			x.writeStruct(st, p, v.Ty, v)
-		} else {
-			x.writeCell(st, p, v)
+		// pointer to a local: the variable lives in a heap cell (cells.go)
+		if o, ok := fr.info.ObjectOf(inner).(*types.Var); ok && x.eng.isCellVar(o) {
+			if _, bound := st.vars[o]; !bound {
+				fr.expr(st, inner)
+			}
+			return Val{T: st.vars[o].T, S: "Int", Ty: t}
 		}
-		if o, ok := fr.info.ObjectOf(inner).(*types.Var); ok {
-			x.cellOf(o, p)
+		// pointer to a package-level variable: a fixed non-nil reference allocated before entry
+		if o, ok := fr.info.ObjectOf(inner).(*types.Var); ok && o.Pkg() != nil && o.Parent() == o.Pkg().Scope() {
+			g := "gaddr_" + sanitize(o.Pkg().Name()+"_"+o.Name())
+			if !x.heapDeclared["$"+g] {
+				x.heapDeclared["$"+g] = true
+				x.u.decls = append(x.u.decls, "(declare-const "+g+" Int)")
+				x.u.fact("(and (> " + g + " 0) (< " + g + " " + x.next0 + "))")
+			}
+			return Val{T: g, S: "Int", Ty: t}
 		}
-		return p
+		return fr.unsupported(st, n, "address-of", t)
 	}
 	return fr.unsupported(st, n, "address-of", t)
 }
